@@ -865,10 +865,15 @@ impl<const K: u8> Handler<()> for Probe<K> {
 }
 
 impl<const K: u8> StreamHandler<Item> for Probe<K> {
-    async fn handle(&mut self, _ctx: &mut Context<Self>, m: Item) {
+    async fn handle(&mut self, ctx: &mut Context<Self>, m: Item) {
         let cb = Cb::Item(m.0);
         self.enter(cb);
         do_work(self.work_for(m.0)).await;
+        // (an item handler may act on the context like any other handler: `msg_actions` is keyed
+        // by the item's id)
+        if let Some(a) = self.action_for(m.0) {
+            self.act(ctx, a).await;
+        }
         self.after(cb);
         self.handled += 1;
         self.digest = fold(self.digest, m.0);
